@@ -48,7 +48,11 @@ def _scenario(draw, tier):
     if mode == "pool":
         n = draw(st.integers(1, 5))
         cfgs = [draw(lc.sampler_config(max_d=2)) for _ in range(n)]
-        return dict(mode=mode, cfgs=cfgs, seed=draw(st.integers(0, 2 ** 32 - 1)),
+        shared = n >= 2 and draw(st.integers(0, 3)) == 0
+        if shared:
+            # the caller builds all chains of the pool from the same start / width / bounds objects
+            cfgs = [cfgs[0]] * n
+        return dict(mode=mode, cfgs=cfgs, shared=shared, seed=draw(st.integers(0, 2 ** 32 - 1)),
                     advances=[draw(st.one_of(st.sampled_from([0, 1, 3, 10]), st.integers(0, 40)))
                               for _ in range(draw(st.integers(1, 2)))],
                     sched=dict(seed=draw(st.integers(0, 2 ** 31 - 1)), stall_p=draw(st.sampled_from([0.0, 0.02, 0.1])),
@@ -189,9 +193,15 @@ def run_pool(sc, V, stats):
         with seams.Seams(sim=sim, mp=mp):
             from inference.mcmc.parallel import ChainPool
 
-            hs = [lc.Harnessed(cfg, "p%d" % k, seed_group=(sc["seed"] + k) & 0x7FFFFFFF) for k, cfg in enumerate(sc["cfgs"])]
+            shared_inputs = lc.make_inputs(sc["cfgs"][0]) if sc.get("shared") else None
+            if shared_inputs is not None:
+                stats["fault_pool_chains_built_from_the_same_arrays"] += 1
+            hs = [lc.Harnessed(cfg, "p%d" % k, inputs=shared_inputs, seed_group=(sc["seed"] + k) & 0x7FFFFFFF)
+                  for k, cfg in enumerate(sc["cfgs"])]
             chains = [h.chain for h in hs]
-            serial = [pickle.loads(pickle.dumps(ch)) for ch in chains]
+            # "the same chains advanced one after another": one copy of the whole list, so that whatever the chains
+            # share with each other they still share in the serial reference (pool workers get independent copies)
+            serial = pickle.loads(pickle.dumps(chains))
             c.sim = sim
             c.eval_cost = c.grad_cost = sc["eval_cost"]
             c.eval_budget = 400_000
